@@ -169,6 +169,12 @@ class VirtualLoop(asyncio.SelectorEventLoop):
 
 
 # ------------------------------------------------------------------------------------------------
+class _Bounded(list):
+    def append(self, x):
+        if len(self) < 40:
+            super().append(x)
+
+
 class BaseWorld:
     """State shared by the two families: the script, the trace, the scripted server."""
 
@@ -179,7 +185,7 @@ class BaseWorld:
         self.trace = []             # canonical events (same vocabulary as the model's)
         self.eio_attempts = []      # what reached the transport, per eio.connect
         self.connect_calls = []     # (args, kwargs) of every client.connect()
-        self.problems = []          # things that must never happen (reported as correspondence failures)
+        self.problems = _Bounded()  # things that must never happen (reported as correspondence failures)
         self.efforts_started = 0
         self.efforts_running = 0
         self.max_concurrent = 0
@@ -603,6 +609,7 @@ class AsyncWorld(BaseWorld):
         world = self
         self.loop = shared_loop()
         self.tasks = []
+        self.all_tasks = []
         self.parked = None
 
         class Eio(engineio.AsyncClient):
@@ -613,6 +620,7 @@ class AsyncWorld(BaseWorld):
                 t = super().start_background_task(target, *args, **kwargs)   # real: ensure_future
                 t.add_done_callback(lambda _t: world.note_effort_end())
                 world.tasks.append(t)
+                world.all_tasks.append(t)
                 return t
 
             async def _connect_polling(self, url, headers, engineio_path):
@@ -776,6 +784,16 @@ class AsyncWorld(BaseWorld):
         self._run(go())
 
     def close(self):
+        # nothing of this world may keep running on the shared loop
+        left = [t for t in self.all_tasks if not t.done()]
+        if left:
+            self.problems.append('%d effort(s) still running at the end' % len(left))
+            for t in left:
+                t.cancel()
+            try:
+                self.loop.run_until_complete(asyncio.wait(left, timeout=5))
+            except Exception:   # noqa
+                pass
         _rand_proxy.world = None
         _aio_proxy.world = None
         try:
